@@ -144,7 +144,9 @@ def _min_obs(mod, tier: str) -> dict:
     mo = getattr(mod, 'MIN_OBS', {}) or {}
     if 'quick' in mo or 'thorough' in mo:
         mo = mo.get(tier, {})
-    return {k: int(v * MIN_OBS_SCALE) for k, v in mo.items()}
+    grow = float(getattr(mod, 'QUICK_SCALE', 1.0)) if tier == 'quick' else 1.0
+    fixed = set(getattr(mod, 'QUICK_FIXED', ()))
+    return {k: int(v * MIN_OBS_SCALE * (1.0 if k in fixed else grow)) for k, v in mo.items()}
 
 
 def run_check(prop: str, tier: str, seed: int, jobs: int) -> int:
